@@ -34,7 +34,9 @@ func MakeFromRequest(r *http.Request) CacheKey {
 	normHost := strings.ToLower(r.Host)
 	// path.Clean drops a trailing slash, but /dir/ and /dir are different resources
 	normPath := path.Clean(r.URL.Path)
-	if strings.HasSuffix(r.URL.Path, "/") && normPath != "/" {
+	// (a final "." or ".." segment names a directory as well: /a/. is /a/)
+	dirPath := strings.HasSuffix(r.URL.Path, "/") || strings.HasSuffix(r.URL.Path, "/.") || strings.HasSuffix(r.URL.Path, "/..")
+	if dirPath && normPath != "/" {
 		normPath += "/"
 	}
 	// Every component is quoted: a separator inside a component (a '|' in the path or in
